@@ -20,6 +20,8 @@ mod cat_big;
 mod cat_field;
 #[path = "c05_ops/ffield.rs"]
 mod ffield;
+#[path = "c05_ops/lattice.rs"]
+mod lattice;
 #[path = "c05_ops/probes.rs"]
 mod probes;
 #[path = "c05_ops/repair.rs"]
@@ -106,8 +108,23 @@ where
             if (e.wrap.is_some() || e.seed_moves) && !e.prog.nonunique {
                 if let Some(actx) = AttackCtx::new(&e.prog, opts.max_bit_len, bud.repair_nodes, 400) {
                     let n_attacked = if bud.thorough { inputs.len().min(6) } else { 2 };
-                    for input in inputs.iter().filter(|i| e.prog.eval(i).is_some()).take(n_attacked) {
-                        let specs = wrap_specs(&e, input);
+                    let nb0 = bud.n_boundary.min(inputs.len());
+                    let nr0 = (nb0 + bud.n_random).min(inputs.len());
+                    // random operands first, then boundary classes and specials
+                    let order: Vec<&FIn> = inputs[nb0..nr0].iter().chain(inputs[..nb0].iter()).chain(inputs[nr0..].iter()).collect();
+                    for (ai, input) in order.into_iter().filter(|i| e.prog.eval(i).is_some()).take(n_attacked).enumerate() {
+                        let mut specs = wrap_specs(&e, input);
+                        // free-auxiliary-value forgeries (lattice), on the random operands
+                        if e.wrap.is_some() && (ai == 0 || bud.thorough) {
+                            let n_in = e.prog.n_input_positions(input);
+                            if let Some(info) = actx.identity_info(input, n_in..n_in + nb_limbs::<K>()) {
+                                let ls = lattice_specs(&e, input, &info, if bud.thorough { 4 } else { 2 });
+                                rep.count_n("attack.lattice_specs", ls.len() as u64);
+                                specs.extend(ls);
+                            } else {
+                                rep.count("attack.lattice.identity_row_not_found");
+                            }
+                        }
                         actx.run_specs(input, &specs, &mut ast, rep);
                     }
                     if e.seed_moves {
